@@ -7,6 +7,8 @@ proof:  Props/C27.v over Model/Sem.v (all flavours): the value sem_wextend write
 tie:    (a) every backend's real result vs sem_gen <flavour> inside Coq (Model/SemCases.v: partitioning, sorting, writing back);
         (b) per ordered partition: the values each backend wrote, read in the declared order, vs win_fn / the hand models of the
             listed deviations (Model/WindowCases.v).
+        The reference is driven by the SCRIPT's steps (what the caller declared), never by the built node: a builder that merges
+        two adjacent windowed extends with different orders is caught although all backends then agree with each other.
 oracle: an independent pure-Python reference of every window function over the ordered partition (written from the property text
         and the Term docstrings), compared per row -- rows are matched through the unique column `uid` -- on every backend that
         supports the function (catalogue column == 'y' for Pandas / SQLite / PostgreSQL text; "does not raise" for Polars), and
@@ -63,11 +65,15 @@ def supported(fn, backend):
 
 # ------------------------------------------------------------------------------------------------ generation
 
-def gen_window_table(rng, tier):
+def gen_window_table(rng, tier, chain=False):
     big = tier == "thorough"
     nrows = rng.choice([0, 1, 2, 3, 4, 5, 6, 7, 8, 10] + ([12, 16] if big else []))
     npart = rng.choice([0, 1, 1, 1, 2, 2, 3])
     nord = rng.choice([0, 0, 1, 1, 1, 2, 2, 3])
+    if chain:                                              # two adjacent windowed extends: several order columns, enough rows to tell orders apart
+        nrows = rng.choice([3, 4, 5, 6, 7, 8, 10] + ([12, 16] if big else []))
+        npart = rng.choice([0, 1, 1, 2])
+        nord = rng.choice([2, 2, 3])
     spec, gens = [], []
     for i in range(npart):
         ty = rng.choice(["int", "str"])
@@ -150,6 +156,49 @@ def make_case(rng, tier):
     return {"tab": tab, "src": src, "step": s, "fns": meta, "keep": keep}
 
 
+def make_chain_case(rng, tier):
+    """TWO ADJACENT windowed extends with independent assignments.  The second window is the first one with (a) the same
+    order columns in a different sequence, (b) a different reversal, (c) a different partition, or (d) unchanged (the one case
+    in which the builder may merge the two steps).  Each step's values are checked against the order DECLARED IN THAT STEP."""
+    tab, part, order = gen_window_table(rng, tier, chain=True)
+    rev = [c for c in order if rng.random() < 0.4]
+    src = {"op": "table", "name": "d"}
+    def draw(prefix):
+        ops, meta = {}, {}
+        for i in range(rng.choice([1, 2, 2])):
+            fn = rng.choice(["cumsum", "cummax", "cummin", "cumprod", "cumcount", "_row_number", "_count", "shift", "first", "last", "bfill", "ffill", "rank"])
+            ops[f"{prefix}{i}"] = fn_expr(rng, fn, ["x", "y"])
+            meta[f"{prefix}{i}"] = fn
+        return ops, meta
+    ops1, m1 = draw("w")
+    ops2, m2 = draw("v")
+    part2, order2, rev2 = list(part), list(order), list(rev)
+    kind = rng.choice(["permuted_order", "permuted_order", "permuted_order", "other_reverse", "other_partition", "same_window"])
+    if kind == "permuted_order":
+        while order2 == order:
+            rng.shuffle(order2)
+    elif kind == "other_reverse":
+        c = rng.choice(order)
+        rev2 = [x for x in rev if x != c] if c in rev else rev + [c]
+    elif kind == "other_partition":
+        cols = [c for c, _ in tab["spec"] if c.startswith("p")]
+        part2 = part[:-1] if part else cols[:1]
+    s1 = {"op": "extend", "src": src, "ops": ops1, "partition_by": part if part else 1, "order_by": order, "reverse": rev}
+    s2 = {"op": "extend", "ops": ops2, "partition_by": part2 if part2 else 1, "order_by": order2, "reverse": rev2}
+    m1.update(m2)
+    return {"tab": tab, "src": src, "step": s1, "step2": s2, "fns": m1, "keep": None, "chain_kind": kind}
+
+
+class Win:
+    """the window one step DECLARES (taken from the script, never from the built node)"""
+
+    def __init__(self, step, index):
+        self.index = index
+        self.ops = dict(step["ops"])
+        self.part = step["partition_by"] if isinstance(step["partition_by"], list) else []
+        self.order, self.rev = list(step["order_by"]), list(step["reverse"])
+
+
 class WCase:
     """one windowed extend with its table; per-backend sub-pipelines keep only the functions the backend supports"""
 
@@ -158,14 +207,21 @@ class WCase:
         self.tab = {"name": j["tab"]["name"], "spec": [tuple(x) for x in j["tab"]["spec"]], "rows": j["tab"]["rows"]}
         self.tabs = [self.tab]
         self.step, self.src, self.fns, self.keep = j["step"], j["src"], dict(j["fns"]), j.get("keep")
-        self.part = self.step["partition_by"] if isinstance(self.step["partition_by"], list) else []
-        self.order, self.rev = list(self.step["order_by"]), list(self.step["reverse"])
+        self.step2 = j.get("step2")
+        self.steps = [Win(self.step, 0)] + ([Win(self.step2, 1)] if self.step2 else [])
+        self.part, self.order, self.rev = self.steps[0].part, self.steps[0].order, self.steps[0].rev
         self._cases = {}
         pipes.build(self.script(list(self.fns)), {"d": self.tab})          # the builder must accept the full step (raises otherwise)
         self._source = None
 
+    def expr(self, k):
+        return next(w.ops[k] for w in self.steps if k in w.ops)
+
     def script(self, keys):
-        s = dict(self.step, ops={k: self.step["ops"][k] for k in keys})
+        s = self.src
+        for st in (self.step, self.step2):
+            if st is not None and any(k in st["ops"] for k in keys):
+                s = dict(st, src=s, ops={k: st["ops"][k] for k in keys if k in st["ops"]})
         if self.keep is not None:
             cols = [c for c in self.keep if c in keys or c not in self.fns]
             s = {"op": "select_columns", "src": s, "columns": cols}
@@ -305,16 +361,17 @@ def sort_partition(rows, order, rev):
     return out
 
 
-def partitions(wc):
-    """[(key, rows in declared order | frame order, total?)]"""
+def partitions(wc, win=None):
+    """[(key, rows in the order DECLARED by the step `win` | frame order, total?)]"""
+    win = win or wc.steps[0]
     groups = {}
     for r in wc.source_rows():
-        groups.setdefault(part_key(r, wc.part), []).append(r)
+        groups.setdefault(part_key(r, win.part), []).append(r)
     out = []
     for k, rs in groups.items():
-        keys = [tuple(r[c] for c in wc.order) for r in rs]
+        keys = [tuple(r[c] for c in win.order) for r in rs]
         total = all(v is not None for t in keys for v in t) and len(set(keys)) == len(keys)
-        out.append((k, sort_partition(rs, wc.order, wc.rev) if (total and wc.order) else rs, total if wc.order else False))
+        out.append((k, sort_partition(rs, win.order, win.rev) if (total and win.order) else rs, total if win.order else False))
     return out
 
 
@@ -354,58 +411,59 @@ def oracle(wc, backend, keys, res):
     if len(res) != len(src) or set(got) != {r["uid"] for r in src} or any(len(v) != 1 for v in got.values()):
         return [(f"{backend}: the windowed extend returned {len(res)} rows for {len(src)} input rows (or lost / repeated a row)",
                  {"backend": backend, "fn": "*", "cause": "row_count"}, {})], [], st
-    ordered = bool(wc.order)
     unobservable_deviation = False
-    for key, rows, total in partitions(wc):
-        for k in wc.visible(keys):
-            fn = wc.fns[k]
-            arg, _, extra = parse_expr(wc.step["ops"][k])
-            if ordered and not total and fn not in ORDER_FREE:
-                st["partition_not_total_skipped"] = st.get("partition_not_total_skipped", 0) + 1
-                if backend in PL and fn in ("first", "last") and any(v is None for v in arg_values(rows, arg)):
-                    unobservable_deviation = True           # the listed Polars deviation may show where the oracle cannot look
-                continue
-            if not ordered and fn not in ORDER_FREE:
-                continue
-            if ordered and not total and backend in SQL and fn in GROUP_AGGS:
-                # outside the property's "total order", and SQL's running aggregate (the listed deviation) then depends on
-                # SQL's own placement of the null / tied keys: nothing to compare per row
-                st["sql_group_aggregate_on_non_total_order_skipped"] = st.get("sql_group_aggregate_on_non_total_order_skipped", 0) + 1
-                unobservable_deviation = True
-                continue
-            vs = arg_values(rows, arg)
-            exp = ref_win(cat_name(fn), extra, vs)
-            obs = [got[r["uid"]][0].get(k) for r in rows]
-            st["rows_compared"] = st.get("rows_compared", 0) + len(rows)
-            causes = set()
-            for j, (o, e) in enumerate(zip(obs, exp)):
-                if e is SKIP:
-                    st["sum_of_nothing_not_compared"] = st.get("sum_of_nothing_not_compared", 0) + 1
-                    st["_skip"].add((k, rows[j]["uid"]))
+    for win in wc.steps:                               # every step against the window IT declares
+        ordered = bool(win.order)
+        for key, rows, total in partitions(wc, win):
+            for k in [k for k in wc.visible(keys) if k in win.ops]:
+                fn = wc.fns[k]
+                arg, _, extra = parse_expr(wc.expr(k))
+                if ordered and not total and fn not in ORDER_FREE:
+                    st["partition_not_total_skipped"] = st.get("partition_not_total_skipped", 0) + 1
+                    if backend in PL and fn in ("first", "last") and any(v is None for v in arg_values(rows, arg)):
+                        unobservable_deviation = True           # the listed Polars deviation may show where the oracle cannot look
                     continue
-                if not pipes.cells_close(o, e):
-                    cause = diagnose(fn, backend, ordered, vs, j, o)
-                    causes.add(cause)
-                    why = (f"{backend}: {wc.step['ops'][k]} over partition {dict(zip(wc.part, key))} ordered by {wc.order} reverse {wc.rev}: "
-                           f"row uid={rows[j]['uid']} (position {j}) got {o!r}, the window function over its ordered partition gives {e!r}")
-                    viol.append((why, {"backend": backend, "fn": fn, "cause": cause},
-                                 {"column": k, "partition": list(key), "ordered_values": vs, "expected": [None if x is SKIP else x for x in exp], "observed": obs}))
-                    break
-            if (total or not ordered) and fn not in NO_COQ and len(rows) > 0:
-                variant = "WSem"                      # the hand model of a listed deviation only where the deviation shows
-                dev = causes - {"null_value_row"}     # (f_running_carry models that one inside win_fn)
-                if dev == {"group_aggregate_running_in_ordered_window"}:
-                    variant = "WSqlOrderedAgg"
-                elif dev == {"boundary_null"}:
-                    variant = "WPolarsFirst" if fn == "first" else "WPolarsLast"
-                elif dev == {"null_counted"}:
-                    variant = "WPolarsNunique"
-                # any other mismatch stays a WSem case: the model then disagrees as well, which is reported beside the oracle's finding
-                if SKIP in exp and backend in PL:
-                    variant = None                      # Polars window sum of nothing is 0, its project sum is null: one flavour field cannot say both
-                if variant is not None and (ordered or fn in ORDER_FREE):
-                    wcases.append({"fl": X.FLAVOR[backend], "variant": variant, "op": cat_name(fn), "extra": extra, "vs": vs, "obs": obs,
-                                   "backend": backend, "expr": wc.step["ops"][k]})
+                if not ordered and fn not in ORDER_FREE:
+                    continue
+                if ordered and not total and backend in SQL and fn in GROUP_AGGS:
+                    # outside the property's "total order", and SQL's running aggregate (the listed deviation) then depends on
+                    # SQL's own placement of the null / tied keys: nothing to compare per row
+                    st["sql_group_aggregate_on_non_total_order_skipped"] = st.get("sql_group_aggregate_on_non_total_order_skipped", 0) + 1
+                    unobservable_deviation = True
+                    continue
+                vs = arg_values(rows, arg)
+                exp = ref_win(cat_name(fn), extra, vs)
+                obs = [got[r["uid"]][0].get(k) for r in rows]
+                st["rows_compared"] = st.get("rows_compared", 0) + len(rows)
+                causes = set()
+                for j, (o, e) in enumerate(zip(obs, exp)):
+                    if e is SKIP:
+                        st["sum_of_nothing_not_compared"] = st.get("sum_of_nothing_not_compared", 0) + 1
+                        st["_skip"].add((k, rows[j]["uid"]))
+                        continue
+                    if not pipes.cells_close(o, e):
+                        cause = diagnose(fn, backend, ordered, vs, j, o)
+                        causes.add(cause)
+                        why = (f"{backend}: {wc.expr(k)} over partition {dict(zip(win.part, key))} ordered by {win.order} reverse {win.rev} (as declared in step {win.index + 1}): "
+                               f"row uid={rows[j]['uid']} (position {j}) got {o!r}, the window function over its ordered partition gives {e!r}")
+                        viol.append((why, {"backend": backend, "fn": fn, "cause": cause},
+                                     {"column": k, "partition": list(key), "ordered_values": vs, "expected": [None if x is SKIP else x for x in exp], "observed": obs}))
+                        break
+                if (total or not ordered) and fn not in NO_COQ and len(rows) > 0:
+                    variant = "WSem"                      # the hand model of a listed deviation only where the deviation shows
+                    dev = causes - {"null_value_row"}     # (f_running_carry models that one inside win_fn)
+                    if dev == {"group_aggregate_running_in_ordered_window"}:
+                        variant = "WSqlOrderedAgg"
+                    elif dev == {"boundary_null"}:
+                        variant = "WPolarsFirst" if fn == "first" else "WPolarsLast"
+                    elif dev == {"null_counted"}:
+                        variant = "WPolarsNunique"
+                    # any other mismatch stays a WSem case: the model then disagrees as well, which is reported beside the oracle's finding
+                    if SKIP in exp and backend in PL:
+                        variant = None                      # Polars window sum of nothing is 0, its project sum is null: one flavour field cannot say both
+                    if variant is not None and (ordered or fn in ORDER_FREE):
+                        wcases.append({"fl": X.FLAVOR[backend], "variant": variant, "op": cat_name(fn), "extra": extra, "vs": vs, "obs": obs,
+                                       "backend": backend, "expr": wc.expr(k)})
     st["_unobservable_deviation"] = unobservable_deviation
     return viol, wcases, st
 
@@ -445,28 +503,34 @@ WPREAMBLE = ("From Coq Require Import List Bool ZArith QArith String.\nImport Li
 
 
 def shrink(wc, backend, k, sig):
-    """fewer rows with the same kind of failure of the same function on the same backend"""
+    """fewer rows with the same kind of failure of the same function on the same backend; a chain of two windowed extends is
+    kept whole (the failure may need the neighbouring step), a single step is reduced to the failing assignment"""
+    def reduced(rows):
+        if wc.step2 is not None:
+            return dict(wc.j, tab=dict(wc.j["tab"], rows=rows))
+        return dict(wc.j, tab=dict(wc.j["tab"], rows=rows), fns={k: wc.fns[k]}, step=dict(wc.step, ops={k: wc.step["ops"][k]}), keep=None)
+
     def fails(rows):
-        j = dict(wc.j, tab=dict(wc.j["tab"], rows=rows), fns={k: wc.fns[k]}, step=dict(wc.step, ops={k: wc.step["ops"][k]}), keep=None)
         try:
-            w2 = WCase(j)
+            w2 = WCase(reduced(rows))
             out, _, _ = eval_backend(w2, backend)
         except Exception:
             return False
         for keys, c, res in out:
             v, _, _ = oracle(w2, backend, keys, res)
-            if any(s["cause"] == sig["cause"] and s["fn"] == sig["fn"] for _, s, _ in v):
+            if any(s_["cause"] == sig["cause"] and s_["fn"] == sig["fn"] and d_.get("column") == k for _, s_, d_ in v):
                 return True
         return False
-    rows = lib.shrink_list(wc.j["tab"]["rows"], fails, max_steps=80)
-    return dict(wc.j, tab=dict(wc.j["tab"], rows=rows), fns={k: wc.fns[k]}, step=dict(wc.step, ops={k: wc.step["ops"][k]}), keep=None)
+    return reduced(lib.shrink_list(wc.j["tab"]["rows"], fails, max_steps=80))
 
 
 def check_case(chk, wc, items, wcases, from_corpus=False):
     ordered = bool(wc.order)
     parts = partitions(wc)
-    total_all = all(t for _, _, t in parts) if ordered else True
+    total_all = all(t for w in wc.steps if w.order for _, _, t in partitions(wc, w))
     null_pkey = any(v is None for k, _, _ in parts for v in k)
+    if wc.step2 is not None:
+        chk.dist("two_adjacent_windowed_extends:" + wc.j.get("chain_kind", "?"))
     chk.count(wc.key(), nontrivial=(len(wc.source_rows()) >= 2))
     chk.dist(f"partition_cols_{len(wc.part)}")
     chk.dist(f"order_cols_{len(wc.order)}" + ("_reversed" if wc.rev else ""))
@@ -541,7 +605,7 @@ def check_case(chk, wc, items, wcases, from_corpus=False):
                 b0, ref = next(iter(clean.items()))
                 for b, v in clean.items():
                     if not pipes.cells_close(v, ref):
-                        why = f"{b0} and {b} write different values ({ref!r} / {v!r}) for {wc.step['ops'][k]} at row uid={u} although the window order is total"
+                        why = f"{b0} and {b} write different values ({ref!r} / {v!r}) for {wc.expr(k)} at row uid={u} although the window order is total"
                         chk.impl_violation(why, {"kind": "impl-violation", "case": wc.json(), "backend": b, "column": k, "why": why},
                                            {"backend": b, "fn": wc.fns[k], "cause": "cross_backend"})
                         break
@@ -550,8 +614,8 @@ def check_case(chk, wc, items, wcases, from_corpus=False):
 def sum_of_nothing(wc, keys):
     for k in keys:
         if cat_name(wc.fns[k]) == "sum":
-            arg, _, _ = parse_expr(wc.step["ops"][k])
-            for _, rows, _ in partitions(wc):
+            arg, _, _ = parse_expr(wc.expr(k))
+            for _, rows, _ in partitions(wc, next(w for w in wc.steps if k in w.ops)):
                 if all(v is None for v in arg_values(rows, arg)):
                     return True
     return False
@@ -574,7 +638,9 @@ def run(chk):
     chk.cov["rule"] = ("one windowed extend per case over a generated table: 0..3 partition columns (int / str, null keys up to 40%), 0..3 order columns with "
                        "independent reversal, the order completed by a permuted last column or by uid (10%: nulls in the first order column), value columns with "
                        "0 / 30 / 60% nulls, 0..10 rows (thorough: ..16) with duplicates; 1..3 functions drawn from every catalogued g / w method; 25% a plain "
-                       "extend / select_rows in front, 20% a select_columns behind; five backends; non-trivial = at least two input rows; distinct by case text")
+                       "extend / select_rows in front, 20% a select_columns behind; 30% of the cases are TWO ADJACENT windowed extends with independent assignments "
+                       "(2..3 order columns; second window = the first with the order columns permuted / another reversal / another partition / unchanged), each step "
+                       "checked against the order declared in the script's step, not in the built node; five backends; non-trivial = at least two input rows; distinct by case text")
     cases = []
     for f in sorted(glob.glob(os.path.join(lib.ROOT, "corpus", "C27", "*.json"))):
         try:
@@ -586,7 +652,7 @@ def run(chk):
     while len([1 for _, fc in cases if not fc]) < n and tries < n * 30:
         tries += 1
         try:
-            cases.append((WCase(make_case(rng, chk.tier)), False))
+            cases.append((WCase(make_chain_case(rng, chk.tier) if rng.random() < 0.3 else make_case(rng, chk.tier)), False))
         except Exception:
             chk.dist("builder_rejected_step")
     items, wcases = [], []
